@@ -91,9 +91,12 @@ def rule_phase(ctx, tu, eff):
         ups = upd.summaries(app, {"mesh_x"})
         ctx.need(len(ups) == 1, R, "%s: expected one store" % app.qual)
         u = ups[0]
-        want = "(mesh_dxdt[%r] * dt)" % (u.index,)
-        ctx.check(u.op == "+=" and cxa.canon(u.rhs) == want, R, u.node, app.qual, text(u.node), "x[I] += dxdt[I] * dt with the "
-                  "identical index", "the Euler update is not x[I] += dxdt[I]*dt at one index")
+        from ..poly import Rat
+        from . import c02
+        got = c02.expr_rat(u.rhs, {}) if u.rhs is not None else None
+        want = Rat.sym("mesh_dxdt[%r]" % (u.index,)) * Rat.sym("dt")
+        ctx.check(u.op == "+=" and got is not None and got.equals(want), R, u.node, app.qual, text(u.node), "x[I] += dxdt[I] * dt "
+                  "with the identical index", "the Euler update is not x[I] += dxdt[I]*dt at one index")
         it = c.methods["Iterate"]
         calls = [call_parts(x)[0] for x in walk(it.body) if x.get("kind") == "CXXMemberCallExpr"]
         ctx.check(calls.index("Compute_dxdt") < calls.index("Apply_dxdt"), R, it.node, it.qual, "Compute_dxdt before Apply_dxdt", "", "")
